@@ -185,10 +185,13 @@ def handle (op : String) (args : List String) (impl : Impl) : Option Ans :=
   | "eq", [a, b] | "ne", [a, b] => do
     let a ← parseDur? a; let b ← parseDur? b
     let va := sval a; let vb := sval b
-    let weq := decide (va = vb ∨ (va = -vb ∧ -NPCs < va ∧ va < NPCs))
+    -- C03: equal counts are equal; == never holds between different magnitudes; the exact negation within one century
+    -- of zero is "the only documented equality between different counts": PERMITTED, not demanded (audit 3) — open
+    let negation := decide (va ≠ vb ∧ va = -vb ∧ -NPCs < va ∧ va < NPCs)
+    let weq := decide (va = vb)
     let want := if op == "eq" then weq else !weq
     let m := if op == "eq" then Dur.eqb a b else !(Dur.eqb a b)
-    pure { model := "ok " ++ bool01 m, spec := judgeInt impl (if want then 1 else 0),
+    pure { model := "ok " ++ bool01 m, spec := if negation then (match impl with | .ok _ => "ok" | .other w => "FAIL:" ++ w) else judgeInt impl (if want then 1 else 0),
            branch := op ++ ":" ++ (if va == vb then "same" else if va == -vb then "opposite"
               else if a.c == b.c then "same_c" else if (a.c - b.c).natAbs == 1 then "adjacent_c" else "far") }
   | "isneg", [a] => do
